@@ -48,7 +48,11 @@ def check(m, run):
         [m.func('helpers.surface_deriv_cpts'), m.func('helpers.curve_deriv_cpts')]
     rl.ly1_canonical(m, run, funcs)
     ra.ax1_helper_calls(m, run, funcs + [m.func('helpers.basis_function_ders'), m.func('helpers.basis_function_all')])
-    hodographs(m, run)
+    n1 = len(run.obs)
+    _sd.hd3(m, run)
+    hd_ok = all(o.ok for o in run.obs[n1:])
+    with run.corroborating(hd_ok, 'HD3', rules=('HD1.hodograph-source', 'HD2.hodograph-keeps-parametrisation', 'HD4.hodograph-degrees', 'AXK.keyword-axis')):
+        hodographs(m, run)
     from .. import skel_drivers as _sd
     _sd.c03_order(m, run)     # derivatives at a knot are taken from the right: the span search must return the span that starts there
     from .. import ops_common as oc
